@@ -61,3 +61,141 @@ pub open spec fn tokenize_spec(cs: Seq<char>, ds: Seq<char>, de: Seq<char>) -> S
     merged(flushed(cs, ds, de), flushed(cs, ds, de).len() as int)
 }
 
+
+// ---- C07/C08, clause "every tag token begins with the start delimiter, has at least one body character and ends
+//      with the end delimiter": a consequence of tokenize_spec ----
+pub open spec fn tag_span(cs: Seq<char>, ds: Seq<char>, de: Seq<char>, s: int, e: int) -> bool {
+    &&& 0 <= s && s + ds.len() + 1 + de.len() <= e <= cs.len()
+    &&& cs.subrange(s, s + ds.len()) == ds
+    &&& cs.subrange(e - de.len(), e) == de
+}
+pub open spec fn toks_tagged(ts: Seq<GTok>, cs: Seq<char>, ds: Seq<char>, de: Seq<char>) -> bool {
+    forall|i: int| 0 <= i < ts.len() ==> ((#[trigger] ts[i]).is_element ==> tag_span(cs, ds, de, ts[i].start, ts[i].end))
+}
+/// what the automaton state says about the span [st, n) still open after n characters
+pub open spec fn state_inv(cs: Seq<char>, ds: Seq<char>, de: Seq<char>, n: int, g: GState, st: int) -> bool {
+    &&& 0 <= st <= n <= cs.len()
+    &&& match g {
+        GState::Text => true,
+        GState::DelimiterStart(r) => 1 <= n - st <= ds.len() && r == ds.skip(n - st) && cs.subrange(st, n) == ds.take(n - st),
+        GState::InDelimiter => st + ds.len() + 1 <= n && cs.subrange(st, st + ds.len()) == ds,
+        GState::DelimiterEnd(r) => exists|k: int| #![trigger de.skip(k)] 1 <= k <= de.len() && r == de.skip(k) && cs.subrange(n - k, n) == de.take(k)
+            && st + ds.len() + 1 <= n - k && cs.subrange(st, st + ds.len()) == ds,
+    }
+}
+pub proof fn lemma_scan_tagged(cs: Seq<char>, ds: Seq<char>, de: Seq<char>, n: int)
+    requires 0 <= n <= cs.len(), ds.len() > 0, de.len() > 0,
+    ensures toks_tagged(scan(cs, ds, de, n).0, cs, ds, de), state_inv(cs, ds, de, n, scan(cs, ds, de, n).1, scan(cs, ds, de, n).3),
+    decreases n,
+{
+    if n > 0 {
+        lemma_scan_tagged(cs, ds, de, n - 1);
+        let p = scan(cs, ds, de, n - 1);
+        let c = cs[n - 1];
+        let st = get_state_spec(c, ds, de, p.1);
+        let q = scan(cs, ds, de, n);
+        let s0 = p.3;
+        // the state invariant after consuming c
+        match p.1 {
+            GState::Text => {
+                if c == ds[0] {
+                    assert(ds.skip(1) =~= ds.skip(n - (n - 1)));
+                    assert(cs.subrange(n - 1, n) =~= ds.take(1));
+                }
+            },
+            GState::DelimiterStart(r) => {
+                let k = n - 1 - s0;
+                if r.len() > 0 {
+                    assert(r[0] == ds[k]);
+                    if c == r[0] {
+                        assert(r.skip(1) =~= ds.skip(k + 1));
+                        assert(cs.subrange(s0, n) =~= ds.take(k + 1));
+                    }
+                } else {
+                    assert(k == ds.len());
+                    assert(ds.take(k) =~= ds);
+                }
+            },
+            GState::InDelimiter => {
+                if c == de[0] {
+                    assert(cs.subrange(n - 1, n) =~= de.take(1));
+                    assert(state_inv(cs, ds, de, n, GState::DelimiterEnd(de.skip(1)), s0));
+                }
+            },
+            GState::DelimiterEnd(r) => {
+                let k = choose|k: int| #![trigger de.skip(k)] 1 <= k <= de.len() && r == de.skip(k) && cs.subrange(n - 1 - k, n - 1) == de.take(k)
+                    && s0 + ds.len() + 1 <= n - 1 - k && cs.subrange(s0, s0 + ds.len()) == ds;
+                if r.len() > 0 {
+                    assert(r[0] == de[k]);
+                    if c == r[0] {
+                        assert(r.skip(1) =~= de.skip(k + 1));
+                        assert(cs.subrange(n - 1 - k, n) =~= de.take(k + 1));
+                        assert(state_inv(cs, ds, de, n, GState::DelimiterEnd(de.skip(k + 1)), s0));
+                    }
+                } else {
+                    // the tag [s0, n-1) is complete
+                    assert(k == de.len());
+                    assert(de.take(k) =~= de);
+                    assert(tag_span(cs, ds, de, s0, n - 1));
+                    if c == ds[0] {
+                        assert(ds.skip(1) =~= ds.skip(n - (n - 1)));
+                        assert(cs.subrange(n - 1, n) =~= ds.take(1));
+                    }
+                }
+            },
+        }
+        assert(state_inv(cs, ds, de, n, q.1, q.3));
+        assert forall|i: int| 0 <= i < q.0.len() implies ((#[trigger] q.0[i]).is_element ==> tag_span(cs, ds, de, q.0[i].start, q.0[i].end)) by {
+            if i < p.0.len() { assert(q.0[i] == p.0[i]); }
+        }
+    }
+}
+pub proof fn lemma_merged_tagged(ts: Seq<GTok>, n: int, cs: Seq<char>, ds: Seq<char>, de: Seq<char>)
+    requires 0 <= n <= ts.len(), toks_tagged(ts, cs, ds, de),
+    ensures toks_tagged(merged(ts, n), cs, ds, de),
+    decreases n,
+{
+    if n > 0 {
+        lemma_merged_tagged(ts, n - 1, cs, ds, de);
+        let acc = merged(ts, n - 1);
+        let cur = ts[n - 1];
+        let r = merged(ts, n);
+        assert forall|i: int| 0 <= i < r.len() implies ((#[trigger] r[i]).is_element ==> tag_span(cs, ds, de, r[i].start, r[i].end)) by {
+            if acc.len() > 0 && !acc.last().is_element && !cur.is_element {
+                if i < acc.len() - 1 { assert(r[i] == acc[i]); }
+            } else {
+                if i < acc.len() { assert(r[i] == acc[i]); }
+            }
+        }
+    }
+}
+/// C07 (tag delimiters) and C08 (at least one body character) for the tokenizer as a function
+pub proof fn lemma_tokenize_tagged(cs: Seq<char>, ds: Seq<char>, de: Seq<char>)
+    requires ds.len() > 0, de.len() > 0,
+    ensures toks_tagged(tokenize_spec(cs, ds, de), cs, ds, de),
+{
+    let n = cs.len() as int;
+    lemma_scan_tagged(cs, ds, de, n);
+    let p = scan(cs, ds, de, n);
+    let f = flushed(cs, ds, de);
+    assert(toks_tagged(f, cs, ds, de)) by {
+        if cs.len() > 0 {
+            let k = get_state_spec(' ', ds, de, p.1).0;
+            if k == Some(true) {
+                // only a completed end delimiter flushes as a tag
+                assert(p.1 is DelimiterEnd);
+                let r = p.1->DelimiterEnd_0;
+                assert(r.len() == 0);
+                let kk = choose|kk: int| #![trigger de.skip(kk)] 1 <= kk <= de.len() && r == de.skip(kk) && cs.subrange(n - kk, n) == de.take(kk)
+                    && p.3 + ds.len() + 1 <= n - kk && cs.subrange(p.3, p.3 + ds.len()) == ds;
+                assert(kk == de.len());
+                assert(de.take(kk) =~= de);
+                assert(tag_span(cs, ds, de, p.3, n));
+            }
+            assert forall|i: int| 0 <= i < f.len() implies ((#[trigger] f[i]).is_element ==> tag_span(cs, ds, de, f[i].start, f[i].end)) by {
+                if i < p.0.len() { assert(f[i] == p.0[i]); }
+            }
+        }
+    }
+    lemma_merged_tagged(f, f.len() as int, cs, ds, de);
+}
